@@ -46,23 +46,23 @@ LEVEL = "proof"
 LEVEL_TEXT = ("Kernel-checked theorems (Props/C17.lean) over an executable model of inspection.py's origin / resolve_supertype / "
               "unwrap / the is*type family on an inductive annotation syntax (NewType / TypeAliasType / ClassVar / Final / TypeVar "
               "wrappers of ANY depth, both spellings of every generic, the three union spellings). The runtime's class lattice is "
-              "DATA: Gen/Lattice.lean is regenerated on every run from the running interpreter (issubclass of each of 164 catalogue "
+              "DATA: Gen/Lattice.lean is regenerated on every run from the running interpreter (issubclass of each of 166 catalogue "
               "objects against each ABC / base the predicates test, typing.get_origin, str/__qualname__, instantiability) together "
               "with typelib's live tables (GENERIC_TYPE_MAP, _COLLECTIONS, _MAPPING_TYPES, _UNRESOLVABLE, BUILTIN_TYPES, STDLIB_TYPES), "
               "and the decidable predicate `adequate` is re-decided against it (lattice_adequate, lattice_ordinary). The theorems are "
-              "about wrappers and spellings over ANY adequate table: predA_agrees + isdatetype_agrees ... ismappingtype_agrees (the 13 "
-              "origin-based predicates never raise and equal the runtime's issubclass on the resolved class for NewType* . alias? "
-              "chains of any length, either spelling); predA_unwrapped_agrees / predA_unwrapped_chain / predB_unwrapped_agrees + "
-              "isenumtype_unwrapped_agrees ... ispathtype_unwrapped_agrees (all 22 class-valued predicates after unwrap, every "
-              "interleaving of Final / ClassVar / NewType / alias / TypeVar-bound); predA_spelling_invariant, predB_spelling_invariant "
-              "and the *_spelling_invariant theorems of the special-form predicates (the answer depends only on the erased annotation); "
-              "unwrap_strips, unwrap_idem, core_not_wrapper; origin_instantiable + origin_mapped_same_kind (mapped ABCs and concrete "
-              "classes); syntactic specifications isuniontype_spec, isoptionaltype_spec, isliteral_spec, isfinal_spec, "
-              "isclassvartype_spec, isnonetype_spec, isforwardref_spec, isunresolvable_resolved, issubscriptedgeneric_spec_partial, "
-              "isfixedtupletype_spec. Where the code does not meet the full statement the weaker theorem carries an explicit decidable "
-              "hypothesis and the negation is proved at a concrete witness of the regenerated table (alias_chain_raises_witness, "
-              "predA_agrees_full_false, direct_predicates_witness, issequencetype_disagrees_witness, callable_class_witness, "
-              "origin_not_instantiable_witness, issubscriptedgeneric_pipe_witness, unwrap_classvar_literal_witness). "
+              "about wrappers and spellings over ANY adequate table: predA_agrees + isdatetype_agrees ... ismappingtype_agrees and "
+              "predB_agrees + isenumtype_agrees ... ispathtype_agrees (all 22 class-valued predicates never raise and equal the "
+              "runtime's issubclass on the resolved class for chains of NewTypes and aliases of any length in any interleaving, either "
+              "spelling; issequencetype under the decidable hypothesis seqConsistent); predA_unwrapped_agrees / predA_unwrapped_chain / "
+              "predB_unwrapped_agrees + is*_unwrapped_agrees (the same after unwrap, with Final / ClassVar / TypeVar-bound on top); "
+              "predA_spelling_invariant, predB_spelling_invariant and the *_spelling_invariant theorems of the special-form predicates "
+              "(the answer depends only on the erased annotation); unwrap_strips, unwrap_idem, core_not_wrapper; origin_instantiable + "
+              "origin_mapped_same_kind (mapped ABCs and concrete classes); syntactic specifications isuniontype_spec, "
+              "isoptionaltype_spec, isliteral_spec, isfinal_spec, isclassvartype_spec, isnonetype_spec, isforwardref_spec, "
+              "isunresolvable_resolved, issubscriptedgeneric_spec_partial, isfixedtupletype_spec. Where the code does not meet the full "
+              "statement (the four known findings) the weaker theorem carries an explicit decidable hypothesis and the negation is "
+              "proved at a concrete witness of the regenerated table (issequencetype_disagrees_witness, origin_not_instantiable_witness, "
+              "issubscriptedgeneric_pipe_witness, classvar_optional_witness). "
               "NOT covered by a theorem, checked by the runtime oracle only: the signature helpers (signature, get_type_hints, "
               "typed_dict_signature, tuple_signature, safe_get_params, simple_attributes), name / qualname / args on composite "
               "annotations, isstdlibtype / isstructuredtype / isgeneric, and the instance predicates (ishashable, isproperty, "
@@ -90,7 +90,8 @@ ASSUMPTIONS = [
     "documented pairs and, in Lean, for kind preservation: issubclass(value, key) per the runtime)",
     "issequencetype's oracle is its docstring (Collection-like membership), ismappingtype's oracle admits the library's named "
     "mapping-like classes (_MAPPING_TYPES: sqlite3.Row is not a collections.abc.Mapping)",
-    "class-valued predicates applied to special forms (unions, Literal, Final, ClassVar, TypeVar, ForwardRef, None, Callable / type[...]) "
+    "class-valued predicates applied to special forms (unions, Literal, Final, ClassVar, TypeVar, ForwardRef, None, Callable[...], "
+    "type[...] and metaclasses, which origin() maps to typing.Callable) "
     "are outside the domain: compared with the model only",
 ]
 TRUSTED = ["harness/props/c17.py (generators, materialiser, oracle)", "harness/_extract_inspect.py (catalogue + table extraction)",
@@ -154,15 +155,10 @@ DOC_MAPPING_EXTRA = (dict, sqlite3.Row, types.MappingProxyType)
 DOC_BUILTINS = (int, bool, float, str, bytes, bytearray, list, set, frozenset, tuple, dict, type(None))
 
 # triage identifiers of behaviours of the unchanged tree that contradict the statement (reported, not hidden)
-F_ALIAS = "aliasChainRaises"
-F_DIRECT_W = "directPredicateOnWrapper"     # NewType / alias asked directly (the library itself unwraps first)
-F_DIRECT_G = "directPredicateOnGeneric"     # subscripted generic / bare typing alias / mapped ABC: re.Pattern[str], typing.Pattern
 F_SEQ = "sequenceNotCollection"
 F_ABSTRACT = "originAbstractABC"
-F_CALLABLE = "callableClassOrigin"
 F_REPR = "reprBasedGenericDetection"
 F_CVLIT = "classVarLookThrough"
-F_HASHCLS = "ishashableOnClass"
 BARE_SPECIAL = {"typing.Union", "types.UnionType", "typing.Optional", "typing.Literal", "typing.Final", "typing.ClassVar",
                 "typing.Generic"}
 # not modelled: `types.UnionType.__args__` is a member descriptor, iterating it raises
@@ -520,7 +516,8 @@ def oracle(env, inspection, o, spec):
     resolved = DOC_MAP.get(tyo, tyo) if o_hashable(tyo) else tyo
     R = {}
     cls_valued = isinstance(resolved, type) and isinstance(tyo, type) and not isinstance(s, types.UnionType)
-    special_callable = cls_valued and (tyo is cabc.Callable or tyo is type)
+    # Callable[...], type[...] and metaclasses are the special form typing.Callable for the library
+    special_callable = cls_valued and (tyo is cabc.Callable or issubclass(tyo, type))
     R["domain"] = bool(cls_valued and not special_callable)
     R["callable_class"] = bool(cls_valued and not special_callable and issubclass(tyo, cabc.Callable))
     R["resolved"] = env.name_of.get(id(resolved)) if cls_valued else None
@@ -559,9 +556,16 @@ def oracle(env, inspection, o, spec):
     sf["isoptionaltype"] = ((sf["isuniontype"] and any(o_unwrap(x) in (None, type(None)) for x in ar))
                             or (og is typing.Literal and None in ar) or o is typing.Optional)
     sf["isliteral"] = og is typing.Literal or (isinstance(o, typing.ForwardRef) and o.__forward_arg__.startswith("Literal"))
+    if og is typing.ClassVar and ar and not isinstance(ar[0], typing.TypeVar):
+        # `origin()` documents that it looks through ClassVar: these three are judged on the qualified annotation
+        ig, ia = typing.get_origin(ar[0]), typing.get_args(ar[0])
+        sf["isuniontype"] = ig is typing.Union or ig is types.UnionType
+        sf["isoptionaltype"] = ((sf["isuniontype"] and any(o_unwrap(x) in (None, type(None)) for x in ia))
+                                or (ig is typing.Literal and None in ia))
+        sf["isliteral"] = ig is typing.Literal
     sf["isfinal"] = og is typing.Final or o is typing.Final
     sf["isclassvartype"] = og is typing.ClassVar or o is typing.ClassVar
-    sf["should_unwrap"] = (sf["isfinal"] or sf["isclassvartype"]) and not sf["isliteral"]
+    sf["should_unwrap"] = sf["isfinal"] or sf["isclassvartype"]
     sf["isnonetype"] = o is None or o is type(None)
     sf["isforwardref"] = isinstance(o, typing.ForwardRef)
     sf["istypealiastype"] = isinstance(o, typing.TypeAliasType)
@@ -609,8 +613,8 @@ def chain_shape(s):
 
 
 def direct_ok(shape):
-    """The chains `origin()` resolves by itself: NewType* then at most one alias."""
-    return re.fullmatch(r"N*A?", shape) is not None
+    """The chains `origin()` resolves by itself: NewType / alias chains of any length, in any interleaving."""
+    return re.fullmatch(r"[NA]*", shape) is not None
 
 
 def erase_py(env, s):
@@ -718,20 +722,12 @@ def judge_one(J, env, spec, real, m):
                 res.count("oracle:class-valued:ok")
                 continue
             finding = None
-            if O["callable_class"]:
-                finding = F_CALLABLE
-            elif p in GROUP_A and not direct_ok(shape) and real_norm(a) == "raise":
-                finding = F_ALIAS
-            elif p == "issequencetype" and isinstance(a, bool):
+            if p == "issequencetype" and isinstance(a, bool):
                 finding = F_SEQ
-            elif p in GROUP_B and a is False and O["wrapped"]:
-                finding = F_DIRECT_W
-            elif p in GROUP_B and a is False and O["generic_or_mapped"]:
-                finding = F_DIRECT_G
             J.fail("class-valued", f"{p} disagrees with issubclass on the class the annotation resolves to ({O['resolved']})",
                    spec, p, a, e, finding)
         sc = O.get("std_collection")
-        if sc and direct_ok(shape) and not O["callable_class"]:
+        if sc:
             if sc["instantiable"] and sc["same_kind"]:
                 res.count("oracle:origin-instantiable:ok")
             else:
@@ -753,19 +749,16 @@ def judge_one(J, env, spec, real, m):
                 res.count("oracle:special:ok")
                 continue
             finding = None
-            if O.get("callable_class") or spec == ["b", "type"]:
-                finding = F_CALLABLE
-            elif p in ("issubscriptedgeneric", "isgeneric") and ((k == "u" and spec[1] == "pipe") or k == "r"):
+            if p in ("issubscriptedgeneric", "isgeneric") and ((k == "u" and spec[1] == "pipe") or k == "r"):
                 finding = F_REPR
-            elif k == "C" and p in ("should_unwrap", "isliteral", "isuniontype"):
+            elif k == "C" and p == "isoptionaltype" and a is False:
                 finding = F_CVLIT
             J.fail("special-form", f"{p} disagrees with typing.get_origin/get_args on the object", spec, p, a, e, finding)
         # unwrap: strips every wrapper and returns the wrapped annotation itself
         if real["unwrap"] == O["unwrap"]:
             res.count("oracle:unwrap:ok")
         else:
-            fin = F_CVLIT if k == "C" else None
-            J.fail("unwrap", "unwrap() did not return the wrapped annotation itself", spec, "unwrap", real["unwrap"], O["unwrap"], fin)
+            J.fail("unwrap", "unwrap() did not return the wrapped annotation itself", spec, "unwrap", real["unwrap"], O["unwrap"])
         if spec[0] in ("s", "u", "l", "F", "C"):
             if real["args"] == O["args"]:
                 res.count("oracle:args:ok")
@@ -939,8 +932,6 @@ def evaluate_helpers(res):
     for b in out["bad"]:
         f = {"what": b["what"], "input": {"ann": None, "shown": b["subject"], "pred": b["what"].split("(")[0].split(" ")[0]},
              "real": b["real"], "expected": b["expected"], "kind": "helpers"}
-        if f["input"]["pred"] == "ishashable" and b["subject"].startswith("<class ") and b["real"] is False:
-            f["finding"] = F_HASHCLS
         res.count(("FINDING:" + f["finding"] if "finding" in f else "FAIL:helpers") + ":" + f["input"]["pred"])
         res.failures.append(f)
 
@@ -954,7 +945,9 @@ def evaluate(ctx, res, env, bulk, fams):
     buckets = {}
     for s in bulk:
         txt = json.dumps(s)
-        key = ("T" if "typing." in txt else "B", sum(map(ord, txt)) % 12)
+        # (`resolve_supertype` is cached by ==, so `Alias(int | None)` after `Alias(Optional[int])` would see the latter's value)
+        sp = "P" if '"pipe"' in txt else ("T" if ("typing." in txt or '"typing"' in txt or '"optional"' in txt) else "B")
+        key = (sp, sum(map(ord, txt)) % 12)
         buckets.setdefault(key, []).append(s)
     jobs = [{"specs": v} for v in buckets.values()]
     # union families: cold per spelling, and both orders
@@ -1004,11 +997,8 @@ def evaluate(ctx, res, env, bulk, fams):
             if all(v == vals[0] for v in vals):
                 res.count("oracle:spelling-invariant:ok")
             else:
-                fin = None
-                if any(m["__oracle__"].get("callable_class") for _, m in members):
-                    fin = F_CALLABLE
                 J.fail("spelling", f"{p} depends on the spelling of the same annotation", members[0][0], p,
-                       {show(s): r[p] for s, r in members}, "one answer", fin)
+                       {show(s): r[p] for s, r in members}, "one answer", None)
     # union families
     cold = {}
     fouts = outs[len(jobs):]
@@ -1073,52 +1063,27 @@ def _witness_child(fid):
             return False
         except Exception:  # noqa: BLE001
             return True
-    if fid == F_ALIAS:
-        a2 = typing.TypeAliasType("A2", typing.TypeAliasType("A1", datetime.date))
-        return raises(I.isdatetype, a2) or I.isdatetype(a2) is not True
-    if fid == F_DIRECT_W:
-        return I.isstringtype(typing.NewType("S", str)) is not True
-    if fid == F_DIRECT_G:
-        return I.ispatterntype(re.Pattern[str]) is not True
     if fid == F_SEQ:
         return I.issequencetype(dict) != I.issequencetype(collections.OrderedDict)
     if fid == F_ABSTRACT:
         og = I.origin(typing.Iterator[int])
         return not cat.instantiable(og)
-    if fid == F_CALLABLE:
-        class C:
-            def __call__(self):
-                return 1
-        return I.origin(C) is not C
     if fid == F_REPR:
         return I.issubscriptedgeneric(int | None) is not True
     if fid == F_CVLIT:
-        return I.unwrap(typing.ClassVar[typing.Literal[1]]) is not typing.Literal[1]
-    if fid == F_HASHCLS:
-        @dataclasses.dataclass
-        class D:
-            a: int
-        return I.ishashable(D) is not True
+        t = typing.ClassVar[typing.Optional[int]]
+        return I.isuniontype(t) is True and I.isoptionaltype(t) is not True
     return None
 
 
 FINDINGS = {
-    F_ALIAS: "origin() resolves NewTypes, then ONE alias level: for Alias(Alias(X)) / Alias(NewType(X)) it returns the inner alias / "
-             "NewType object and the 13 origin-based predicates raise TypeError (isdatetype(TypeAliasType('A2', TypeAliasType('A1', date))))",
-    F_DIRECT_W: "the 9 _safe_issubclass predicates (isstringtype, isnumbertype, isenumtype, ...) do not resolve NewType / alias "
-                "wrappers: isstringtype(NewType('S', str)) is False (the dispatch tables call unwrap first)",
-    F_DIRECT_G: "the same predicates do not take the typing origin: ispatterntype(re.Pattern[str]) and ispatterntype(typing.Pattern) "
-                "are False, so unmarshal(re.Pattern[str], 'a+') raises TypeError; isstringtype(Hashable) is False although origin(Hashable) is str",
     F_SEQ: "issequencetype is `in _COLLECTIONS or issubclass(.., Sequence)`: True for dict / set / frozenset but False for their "
            "subclasses (OrderedDict, defaultdict, Counter, class D(dict)), for TypedDicts and for the mapping views",
     F_ABSTRACT: "origin() of Iterator / Generator / Reversible / ByteString / AsyncIterator ... annotations is the abstract ABC itself",
-    F_CALLABLE: "origin(C) is typing.Callable for every class C that defines __call__ (and for `type`): class-valued predicates raise "
-                "TypeError, isunresolvable(C) is True, unmarshal(C, {...}) returns its input",
     F_REPR: "isgeneric / issubscriptedgeneric / name / qualname read str(t): `int | None` is not subscripted while Optional[int] is, "
             "ForwardRef('List[int]') is; and since the caches are keyed by ==, the answer for one spelling is served for the other",
-    F_CVLIT: "origin() looks through ClassVar, so isliteral(ClassVar[Literal[1]]) is True and should_unwrap False: "
-             "unwrap(ClassVar[Literal[1]]) keeps the ClassVar; isuniontype(ClassVar[Optional[int]]) is True but isoptionaltype is False",
-    F_HASHCLS: "ishashable(cls) looks at cls.__hash__, the hash of the INSTANCES: False for every eq dataclass class although hash(cls) works",
+    F_CVLIT: "origin() looks through ClassVar, so isuniontype(ClassVar[Optional[int]]) is True, but isoptionaltype reads the "
+             "ClassVar's own __args__ and answers False",
 }
 
 
